@@ -226,7 +226,7 @@ def make_rdms(vectors, tag='a'):
 
 
 def make_arg(vectors, flavour, tag):
-    """flavour: 'rdms' | 'ndarray' | 'ndarray1d' (only for a single RDM)"""
+    """flavour: 'rdms' | 'ndarray' (2-D) | 'ndarray1d' (only for a single RDM)"""
     if flavour == 'rdms':
         return make_rdms(vectors, tag)
     v = np.array(vectors, dtype=float)
@@ -289,7 +289,8 @@ def compare_result(method, got, exp, tol, scales=None):
                   'n_bad': len(bad)}
 
 
-FLAVOURS = (('rdms', 'rdms'), ('ndarray', 'ndarray'), ('rdms', 'ndarray'), ('ndarray1d', 'rdms'))
+FLAVOURS = (('rdms', 'rdms'), ('ndarray', 'ndarray'), ('rdms', 'ndarray'), ('ndarray1d', 'rdms'),
+            ('rdms', 'ndarray1d'))
 ENTRIES = ('compare', 'direct')
 
 
@@ -320,48 +321,49 @@ def check_value_record(rec, vcat, nc, variant=0):
             if abs(k - float(e)) > ktol:
                 raise KernelMismatch(f'array kernel {m} disagrees with the TLA+ statistics on {x},{y},{sg}: '
                                      f'{k} vs {float(e)}')
-    # 2. the library, in every flavour and through both entry points
+    # 2. the library: RDMs objects through compare() always, plus one other (flavour, entry point)
+    #    combination per vector, rotating with the vector index so that all are covered evenly
     results = {}
-    for fl in FLAVOURS:
-        if fl[0] == 'ndarray1d' and len(a) != 1:
+    combos = [(fl, en) for fl in FLAVOURS for en in ENTRIES + (('alias',) if m == 'kendall' else ())
+              if not (fl[0] == 'ndarray1d' and len(a) != 1) and not (fl[1] == 'ndarray1d' and len(b) != 1)][1:]
+    todo = [(FLAVOURS[0], 'compare'), combos[variant % len(combos)]]
+    for fl, entry in todo:
+        A = make_arg(a, fl[0], 'a')
+        B = make_arg(b, fl[1], 'b')
+        neval += 1
+        try:
+            got = call(m, A, B, sigma, entry)
+        except Exception as e:  # totality: every admissible input must be accepted
+            out.append((f'{base}/raises/{type(e).__name__}',
+                        f'{m}: the call raises on an admissible input: {e!r}'[:300],
+                        {**case0, 'flavour': fl, 'entry': entry}))
             continue
-        for entry in ENTRIES + (('alias',) if m == 'kendall' else ()):
-            if (fl != FLAVOURS[0]) and entry != ENTRIES[(variant + FLAVOURS.index(fl)) % 2] and entry != 'alias':
-                continue         # all flavours x one entry point, first flavour x all entry points
-            A = make_arg(a, fl[0], 'a')
-            B = make_arg(b, fl[1], 'b')
-            neval += 1
-            try:
-                got = call(m, A, B, sigma, entry)
-            except Exception as e:  # totality: every admissible input must be accepted
-                out.append((f'{base}/raises/{type(e).__name__}',
-                            f'{m}: the call raises on an admissible input: {e!r}'[:300],
-                            {**case0, 'flavour': fl, 'entry': entry}))
-                continue
-            results[(fl, entry)] = np.asarray(got, dtype=float)
-            r = compare_result(m, got, exp, tol, scales)
-            if r is None:
-                continue
-            kind, detail = r
-            key = f'{base}/{kind}'
-            if kind in ('shape', 'transposed'):
-                key = f'C03/a/{m}/{kind}'
-            elif m in COV_METHODS and sgc == 'vector' and kind == 'value':
-                # is it exactly the known fast-path deviation?  (diagnostic model, see fast_path_model)
-                g = np.asarray(got, dtype=float)
-                fp = all(abs(g[i, j] - fast_path_model(m, a[i], b[j], sg['v'])) <= ATOL_CLOSED
-                         for i in range(len(a)) for j in range(len(b)))
-                key = f'{base}/fast-path-is-not-whitening' if fp else f'{base}/value'
-            out.append((key, f'{m} ({"x".join(fl)} input, {entry}) differs from its definition: {detail}',
-                        {**case0, 'flavour': fl, 'entry': entry, 'detail': detail,
-                         'expected': [[float(x) for x in row] for row in exp],
-                         'got': np.asarray(got, dtype=float).tolist()}))
+        results[(fl, entry)] = np.asarray(got, dtype=float)
+        r = compare_result(m, got, exp, tol, scales)
+        if r is None:
+            continue
+        kind, detail = r
+        key = f'{base}/{kind}'
+        if kind in ('shape', 'transposed'):
+            key = f'C03/a/{m}/{kind}'
+        elif m in COV_METHODS and sgc == 'vector' and kind == 'value':
+            # is it exactly the known fast-path deviation?  (diagnostic model, see fast_path_model)
+            g = np.asarray(got, dtype=float)
+            fp = all(abs(g[i, j] - fast_path_model(m, a[i], b[j], sg['v'])) <= ATOL_CLOSED
+                     for i in range(len(a)) for j in range(len(b)))
+            key = f'{base}/fast-path-is-not-whitening' if fp else f'{base}/value'
+        out.append((key, f'{m} ({"x".join(fl)} input, {entry}) differs from its definition: {detail}',
+                    {**case0, 'flavour': fl, 'entry': entry, 'detail': detail,
+                     'expected': [[float(x) for x in row] for row in exp],
+                     'got': np.asarray(got, dtype=float).tolist()}))
     # 3. clause h: ndarray and RDMs input give the same answer; dispatcher = direct function
     ref = results.get((FLAVOURS[0], 'compare'))
     if ref is not None:
         for (fl, entry), g in results.items():
-            if g.shape != ref.shape or not np.allclose(g, ref, rtol=0, atol=tol if tol > 0 else 0.0):
-                key = f'C03/h/{m}/flavour-differs' if entry == 'compare' else f'C03/dispatch/{m}/{entry}-differs'
+            if (fl, entry) == (FLAVOURS[0], 'compare'):
+                continue
+            if g.shape != ref.shape or not np.array_equal(g, ref, equal_nan=True):
+                key = f'C03/h/{m}/flavour-differs' if fl != FLAVOURS[0] else f'C03/dispatch/{m}/{entry}-differs'
                 out.append((key, f'{m}: result depends on the input flavour / entry point {fl} {entry}',
                             {**case0, 'flavour': fl, 'entry': entry, 'ref': ref.tolist(), 'got': g.tolist()}))
     return neval, out
@@ -471,7 +473,8 @@ def check_move_record(rec, vcat, nc):
                       for row in rec['res']]
         r = compare_result(m, v1, exp, tol, scales)
         if r is not None:
-            out.append((f"C03/{CLAUSE[m]}/{m}" + (f"/sigma={sgc}" if m in COV_METHODS else '') + f'/{r[0]}',
+            out.append(((f"C03/{CLAUSE[m]}/{m}" if pid == 'C03' else f"C17/h/{m}/after-{k}")
+                        + (f"/sigma={sgc}" if m in COV_METHODS else '') + f'/{r[0]}',
                         f'{m} after move {k} differs from its definition: {r[1]}',
                         {**case0, 'a': a1, 'b': b1, 'detail': r[1]}))
     return neval, out
@@ -562,8 +565,6 @@ def check_float_case(seed):
         sgc = 'none' if sg is None else ('vector' if sg.ndim == 1 else 'matrix')
         exp = [[array_kernel(m, x, y, sg) for y in b] for x in a]
         tol = tol_for(m, sgc)
-        if m == 'tau-a':
-            tol = 1e-15
         scales = None
         if m == 'bures_metric':
             scales = [[float(np.trace(_kernel_matrix(x)) + np.trace(_kernel_matrix(y))) for y in b] for x in a]
@@ -576,7 +577,7 @@ def check_float_case(seed):
                 out.append((f"C03/{CLAUSE[m]}/{m}/float/raises/{type(e).__name__}", repr(e)[:200],
                             {'seed': seed, 'method': m}))
                 continue
-            r = compare_result('float-' + m if m == 'tau-a' else m, got, exp, tol, scales)
+            r = compare_result(m, got, exp, tol, scales)
             if r is None:
                 continue
             kind_, detail = r
@@ -608,6 +609,27 @@ def _admissible(m, x):
     return True
 
 
+def encode_out(m, got, L):
+    """returned matrix -> what the trace specification reads: rational measures as value * den rounded
+    to the integer it has to be (ok = it was an integer within 1e-9), the others as sign and
+    q = round(|value| * 1e6)"""
+    out = []
+    for i in range(got.shape[0]):
+        row = []
+        for j in range(got.shape[1]):
+            g = float(got[i, j])
+            if m in RATIONAL_METHODS:
+                den = L * (L - 1) // 2 if m == 'tau-a' else L ** 3 - L
+                z = g * den
+                row.append({'sg': int(np.sign(round(z))), 'q': abs(int(round(z))),
+                            'ok': bool(abs(z - round(z)) <= 1e-9 * max(1.0, abs(z)))})
+            else:
+                row.append({'sg': int(np.sign(g)) if abs(g) * KSCALE >= 0.5 else 0,
+                            'q': int(round(abs(g) * KSCALE)), 'ok': True})
+        out.append(row)
+    return out
+
+
 def record_trace(seed, nc, lo=-3, hi=6, ncalls=4):
     """one session: two integer stacks over nc conditions, several compare calls on them.
     Returns (events, skipped_degenerate).  Each event logs the inputs and the returned matrix:
@@ -630,40 +652,21 @@ def record_trace(seed, nc, lo=-3, hi=6, ncalls=4):
         if m in COV_METHODS:
             sk = int(rng.integers(0, 3))
             if sk == 1:
-                v = rng.integers(1, 4, nc)
-                if len(set(v.tolist())) > 1:
-                    # non-constant variance vectors: the fast path of this tree is a known deviation
-                    # (reported S->I with its own key); the trace direction records diag(v) as a matrix
-                    sg = {'kind': 'mat', 'v': [], 'm': np.diag(v).tolist()}
-                else:
-                    sg = {'kind': 'vec', 'v': v.tolist(), 'm': []}
+                sg = {'kind': 'vec', 'v': rng.integers(1, 4, nc).tolist(), 'm': []}
             elif sk == 2:
                 Bm = rng.integers(-1, 2, (nc, nc))
                 sg = {'kind': 'mat', 'v': [], 'm': (Bm @ Bm.T + np.eye(nc, dtype=int)).tolist()}
         fl = ('rdms', 'ndarray')[int(rng.integers(0, 2))]
         A, B = make_arg(a, fl, 'a'), make_arg(b, fl, 'b')
         got = np.asarray(call(m, A, B, sigma_array(sg), 'compare'), dtype=float)
-        ev = {'m': m, 'sg': sg, 'a': a.tolist(), 'b': b.tolist(), 'shape': list(got.shape)}
+        ev = {'m': m, 'inv': 'none', 'sg': sg, 'a': a.tolist(), 'b': b.tolist(), 'shape': list(got.shape)}
         if got.shape != (n1, n2) or not np.all(np.isfinite(got)):
             ev['out'] = []
             ev['bad'] = 'shape-or-nonfinite'
             ev['raw'] = got.tolist()
             events.append(ev)
             continue
-        out = []
-        for i in range(n1):
-            row = []
-            for j in range(n2):
-                g = float(got[i, j])
-                if m in RATIONAL_METHODS:
-                    den = L * (L - 1) // 2 if m == 'tau-a' else L ** 3 - L
-                    z = g * den
-                    row.append({'sg': int(np.sign(round(z))), 'q': abs(int(round(z))),
-                                'ok': bool(abs(z - round(z)) <= 1e-9 * max(1.0, abs(z)))})
-                else:
-                    row.append({'sg': int(np.sign(g)) if abs(g) * KSCALE >= 0.5 else 0,
-                                'q': int(round(abs(g) * KSCALE)), 'ok': True})
-            out.append(row)
+        out = encode_out(m, got, L)
         ev['out'] = out
         ev['raw'] = got.tolist()
         events.append(ev)
@@ -680,7 +683,8 @@ def trace_job(args):
 
 def finish_cov_event(ev, acc, nc):
     """the trace specification accepted structure and emitted the exact V and centred vectors of a
-    whitened call; the kernel applies V^-1 and judges the recorded values"""
+    whitened call; the kernel applies V^-1 and judges the recorded values.
+    -> None | violation-key suffix ('value' | 'fast-path-is-not-whitening'), details"""
     V = acc['V']
     tol = ATOL_CG if ev['sg']['kind'] == 'mat' else ATOL_CLOSED
     bad = []
@@ -690,4 +694,109 @@ def finish_cov_event(ev, acc, nc):
             g = ev['raw'][i][j]
             if abs(g - e) > tol:
                 bad.append((i, j, g, e))
-    return bad
+    if not bad:
+        return None
+    kind = 'value'
+    if sigma_class(ev['sg']) == 'vector':
+        if all(abs(ev['raw'][i][j] - fast_path_model(ev['m'], ev['a'][i], ev['b'][j], ev['sg']['v'])) <= ATOL_CLOSED
+               for i in range(len(ev['a'])) for j in range(len(ev['b']))):
+            kind = 'fast-path-is-not-whitening'
+    return kind, bad[:3]
+
+
+# ------------------------------------------------------------------------------------------------
+# the sigma_k catalogue
+# ------------------------------------------------------------------------------------------------
+def _sv(v):
+    return {'kind': 'vec', 'v': v, 'm': []}
+
+
+def _sm(m):
+    return {'kind': 'mat', 'v': [], 'm': m}
+
+
+# must mirror SigmaCat of specs/MC_Compare.tla (checked: TLC echoes sigma in every moved record and
+# the V matrices are compared with the kernel above)
+SIGMAS = {
+    3: [{'kind': 'none', 'v': [], 'm': []}, _sv([1, 2, 3]), _sv([2, 2, 1]),
+        _sm([[1, 0, 0], [0, 2, 0], [0, 0, 3]]), _sm([[2, 1, 0], [1, 2, 1], [0, 1, 2]]),
+        _sm([[3, 1, 1], [1, 2, 0], [1, 0, 2]])],
+    4: [{'kind': 'none', 'v': [], 'm': []}, _sv([1, 2, 3, 4]), _sv([2, 2, 1, 3]),
+        _sm([[1, 0, 0, 0], [0, 2, 0, 0], [0, 0, 3, 0], [0, 0, 0, 4]]),
+        _sm([[2, 1, 0, 0], [1, 2, 1, 0], [0, 1, 2, 1], [0, 0, 1, 2]]),
+        _sm([[3, 1, 1, 0], [1, 2, 0, 1], [1, 0, 2, 0], [0, 1, 0, 2]])],
+}
+
+
+# ------------------------------------------------------------------------------------------------
+# TLC configurations of MC_Compare / MC_Trace_Compare
+# ------------------------------------------------------------------------------------------------
+SPEC_INVARIANTS = ('CauchySchwarz', 'Symmetric', 'SelfOne', 'Pairing', 'VProps', 'VecIsDiag', 'Embeddable')
+SPEC_PROPERTIES = ('PermInvariant', 'SwapTransposes', 'MonoInvariant', 'LinInvariant')
+
+
+def _set(xs):
+    return '{' + ', '.join(f'"{x}"' if isinstance(x, str) else str(x) for x in xs) + '}'
+
+
+def cfg(nc, *, voff=1, vspan=3, vecs='AllVecs', vecsb=None, movevecs='AllVecs', shapes='Shapes11',
+        methods=ALL_METHODS[:8], moves=('perm', 'swap'), monohi=4, scales=(2, 3), px=1, py=1,
+        moveconfigs='ConfigsAll', emitmod=1, moveemitmod=1):
+    lines = ['CONSTANTS', f'  NC = {nc}', f'  VOff = {voff}', f'  VSpan = {vspan}', f'  PX = {px}', f'  PY = {py}',
+             f'  Vecs <- {vecs}', f'  VecsB <- {vecsb or vecs}', f'  MoveVecs <- {movevecs}', f'  Shapes <- {shapes}',
+             f'  Methods = {_set(methods)}', '  Sigmas <- SigmaCat', f'  Moves = {_set(moves)}',
+             '  MonoLo <- MonoLoDef', f'  MonoHi = {monohi}', f'  Scales = {_set(scales)}',
+             '  Affines <- AffinesDef', '  Configs <- ConfigsAll', f'  MoveConfigs <- {moveconfigs}',
+             f'  EmitMod = {emitmod}', f'  MoveEmitMod = {moveemitmod}', 'INIT Init', 'NEXT Next']
+    lines += [f'INVARIANT {i}' for i in SPEC_INVARIANTS] + ['INVARIANT Emit']
+    lines += [f'PROPERTY {p}' for p in SPEC_PROPERTIES]
+    lines.append('CHECK_DEADLOCK FALSE')
+    return '\n'.join(lines) + '\n'
+
+
+def trace_cfg(nc):
+    lines = ['CONSTANTS', f'  NC = {nc}', '  Vecs <- Unused', '  VecsB <- Unused', '  MoveVecs <- Unused', '  Shapes <- Unused',
+             '  Methods <- Unused', '  Sigmas <- NoSigmas', '  Moves <- Unused', '  MonoLo = 0', '  MonoHi = 0',
+             '  Scales <- Unused', '  Affines <- Unused', '  Configs <- Unused', '  MoveConfigs <- Unused',
+             '  EmitMod = 1', '  MoveEmitMod = 1', 'SPECIFICATION TSpec',
+             'INVARIANT Symmetric', 'INVARIANT SelfOne', 'INVARIANT Pairing', 'INVARIANT VProps',
+             'CHECK_DEADLOCK FALSE']
+    return '\n'.join(lines) + '\n'
+
+
+def grid_size(nc, voff, vspan, methods, shape=(1, 1), nvecs=None, nsig=6, nvecsb=None):
+    """number of (stack pair, method, sigma) combinations of a run BEFORE the generator constraint,
+    so that the excluded degenerate inputs can be counted: total - initial states"""
+    L = nc * (nc - 1) // 2
+    nv = nvecs if nvecs is not None else (vspan + 1) ** L
+    pairs = nv ** shape[0] * (nvecsb if nvecsb is not None else nv) ** shape[1]
+    return sum(pairs * (nsig if m in COV_METHODS else 1) for m in methods)
+
+
+# ------------------------------------------------------------------------------------------------
+# binding self-tests (run on every check): a corrupted expectation / recorded value must be noticed
+# ------------------------------------------------------------------------------------------------
+def selftest_corrupted_vector(rec, vcat, nc):
+    """S -> I: add 1 to one exact statistic of an emitted vector; the replay has to report it"""
+    bad = copy.deepcopy(rec)
+    st = bad['res'][0][0]
+    if 'ab' in st:
+        st['ab'] += 1
+    else:
+        st['u'][0] += 1
+    try:
+        _, out = check_value_record(bad, vcat, nc)
+    except KernelMismatch:
+        return True          # the kernel cross-check already notices the corrupted statistic
+    return any(k.endswith('/value') or k.endswith('fast-path-is-not-whitening') for k, _, _ in out)
+
+
+def corrupt_trace(trace):
+    """I -> S: change one recorded output of an accepted session (q + 5, or the sign)"""
+    t = copy.deepcopy(trace)
+    for ev in t:
+        if ev.get('out') and ev['m'] not in COV_METHODS:
+            o = ev['out'][0][0]
+            o['q'] += 5 if ev['m'] not in RATIONAL_METHODS else 1
+            return t
+    return None
